@@ -20,13 +20,13 @@ LANGS = {
     'Lf': {'f': ('F', 'ss'), 'g': ('G', 'ss'), 'h': ('H', 'sss'), 'w': ('W', 'ssss')},
     'Lm': {'mvar': ('MVar', 's'), 'madd': ('MAdd', 'cc'), 'mmul': ('MMul', 'cc'), 'msum': ('MSum', 'bc'), 'mlet': ('MLet', 'bcc')},
     'La': {'avar': ('AVar', 's'), 'aadd': ('AAdd', 'cc'), 'amul': ('AMul', 'cc'), 'alam': ('ALam', 'bc'), 'num': ('ANum', 'p')},
-    'Lb': {'var': ('Var', 's'), 'app': ('App', 'cc'), 'lam': ('Lam', 'bc'), 'k': ('K', 'ss'), 'u': ('U', 'c'), 'j': ('J', 'ss'), 't3': ('T3', 'sss'), 's3': ('S3', 'sss'), 'm3': ('M3', 'sss'), 'at': ('At', 'sc'), 'ta': ('Ta', 'cs')},
+    'Lb': {'var': ('Var', 's'), 'app': ('App', 'cc'), 'lam': ('Lam', 'bc'), 'k': ('K', 'ss'), 'u': ('U', 'c'), 'j': ('J', 'ss'), 't3': ('T3', 'sss'), 's3': ('S3', 'sss'), 'm3': ('M3', 'sss'), 'at': ('At', 'sc'), 'ta': ('Ta', 'cs'), 'w4': ('W4', 'ssss'), 'v4': ('V4', 'ssss')},
 }
 
 class Template:
-    def __init__(self, name, lang, nnames, ops, analysis='()', distinct=None, note='', group=None, late=None, subst_method=None, model=False):
+    def __init__(self, name, lang, nnames, ops, analysis='()', distinct=None, note='', group=None, late=None, subst_method=None, model=False, ordered=None):
         self.subst_method = subst_method      # None = EGraph::new (SynExprSubst); 'ExtractionSubst' / 'SynExprSubst' = EGraph::with_subst_method::<..>
-        self.ordered = None                   # optional list of name-index chains assumed strictly increasing (cuts the name orders explored; stated in the evidence)
+        self.ordered = ordered                   # optional list of name-index chains assumed strictly increasing (cuts the name orders explored; stated in the evidence)
         self.model = model                    # C03: every snapshot carries a dump of all classes (enodes_applied), judged by the model evaluator
         self.name, self.lang, self.nnames, self.ops, self.analysis, self.note = name, lang, nnames, ops, analysis, note
         self.group = group        # templates of one group are reorderings of the same history (C12)
